@@ -161,6 +161,19 @@ def sketch(t):
     return name + ("(%s)" % sketch(ch[0]) if ch else "()")
 
 
+def _pragma_text_sig(r):
+    """One signature for 'the Pragma string is not the source text', whatever
+    the statement around it."""
+    if r[0] != "mismatch":
+        return None
+    d = r[1]
+    if "/Pragma.string/Constant.value/value:" in d:
+        return "pragma-text-not-verbatim:_Pragma"
+    if "/Pragma.string/value:" in d:
+        return "pragma-text-not-verbatim:#pragma"
+    return None
+
+
 class _Acc:
     def __init__(self):
         self.fails = []
@@ -276,7 +289,11 @@ def run_top(top, acc, parser, src):
             acc.add("pragma_cases")
             continue
         acc.add("failures")
-        if acc.minimised < MAX_MINIMISED_PER_TASK:
+        psig = _pragma_text_sig(r)
+        if psig is not None:
+            acc.fails.append((psig, {"shape": _js(top), "wrap": False, "mode": mode, "text": M.FUNC_HEAD + M.render(t, mode),
+                                     "from": src}, r[1]))
+        elif acc.minimised < MAX_MINIMISED_PER_TASK:
             acc.minimised += 1
             # minimise as an ordinary block item (one more pair of braces)
             r2 = check_body(t, mode, parser)
@@ -342,6 +359,13 @@ def _outer(ctx, seq):
             toks += ["_Pragma", "(", '"p%d"' % i, ")"]
             exp.append(M.PRAGMA("op", "p%d" % i))
             texts.append("p%d" % i)
+        elif e.startswith("pragma@"):
+            # styled pragma text (blanks where a verbatim copy could lose them)
+            p = M.label(("pragma", e[7:], None))
+            p = ("pragma", p[1], p[2].replace("p0", "p%d" % i))
+            M._rp(p, toks)
+            exp.append(M.PRAGMA(p[1], p[2]))
+            texts.append(p[2])
         elif e == "sassert":
             # at file scope and in a struct body the ';' is an empty declaration
             toks += ["_Static_assert", "(", str(i + 1), ",", '"%s"' % M.SA_MSG, ")", ";"]
@@ -401,7 +425,7 @@ def _run_outer(ctx, seq, acc, parser):
                 cur, changed = c, True
                 break
     rm = _check_outer(ctx, cur, parser)
-    sig = "%s:%s{%s}" % (r[0], "struct" if ctx == "struct" else "file", ",".join(sorted(set(cur))))
+    sig = _pragma_text_sig(rm) or "%s:%s{%s}" % (r[0], "struct" if ctx == "struct" else "file", ",".join(sorted(set(cur))))
     acc.fails.append((sig, {"outer": ctx, "seq": list(cur), "text": rm[2], "original_text": r[2]}, rm[1]))
 
 
@@ -431,6 +455,16 @@ def _work(task):
             for j, top in enumerate(single_insertions(s, ff)):
                 run_top(top, acc, parser, name + "+pragma")
                 if len(acc.samples) < 1 and idx % 5 == 3 and j == 5:
+                    acc.samples.append(M.FUNC_HEAD + M.render(M.label(top)))
+    elif kind == "pragx":
+        # pragma texts with blanks in awkward places, at every boundary of one
+        # representative tree per site class
+        _, name, lo, hi = task
+        for idx in range(lo, hi):
+            for j, top in enumerate(single_insertions(L[name][idx], lambda i: M.EXTRA_FORMS)):
+                run_top(top, acc, parser, name + "+styled-pragma")
+                acc.add("styled_pragma_cases")
+                if len(acc.samples) < 1 and j == 17:
                     acc.samples.append(M.FUNC_HEAD + M.render(M.label(top)))
     elif kind == "prag2":
         _, name, lo, hi, form_mode = task
@@ -517,6 +551,10 @@ def _prepare(tier):
     m = 3 if quick else 4
     L["outer_file"] = [q for k in range(1, m + 1) for q in itertools.product(FILE_ELEMS, repeat=k)]
     L["outer_struct"] = [q for k in range(1, m + 1) for q in itertools.product(STRUCT_ELEMS, repeat=k) if "decl" in q]
+    for f in M.EXTRA_FORMS:
+        e = "pragma@" + f
+        L["outer_file"] += [(e,), ("decl", e), (e, "decl"), ("decl", e, "decl"), (e, "func"), ("func", e), (e, e)]
+        L["outer_struct"] += [("decl", e), (e, "decl"), ("decl", e, "decl"), ("decl", e, e)]
     return n, m
 
 
@@ -531,6 +569,9 @@ def run(tier):
     tasks += [("tree", "full2", lo, hi) for lo, hi in _ranges(len(L["full2"]), 2000)]
     tasks += [("tree", "forforms", lo, hi) for lo, hi in _ranges(len(L["forforms"]), 800)]
     tasks += [("switch", lo, hi) for lo, hi in _ranges(len(L["switch_seqs"]), 1000)]
+    # styled pragma texts (trailing / leading / internal blanks, empty text) at
+    # every boundary of the full-alphabet depth<=1 trees (every site class)
+    tasks += [("pragx", "full2", lo, hi) for lo, hi in _ranges(L["full_n01"], 20)]
     # single pragma insertions at every statement / declaration boundary
     tasks += [("prag1", "forforms", lo, hi, 10 ** 9) for lo, hi in _ranges(len(L["forforms"]), 400)]
     if quick:
@@ -567,6 +608,7 @@ def run(tier):
     R.set("ambiguous_renderings", tot.get("ambiguous_renderings", 0))
     R.set("cases_with_pragmas", tot.get("pragma_cases", 0))
     R.set("outer_cases", tot.get("outer_cases", 0))
+    R.set("styled_pragma_cases", {"cases": tot.get("styled_pragma_cases", 0), "forms": list(M.EXTRA_FORMS)})
     R.set("switch_sequences", {k: tot.get(k, 0) for k in ("switch_sequences", "switch_sequences_not_c11",
                                                             "switch_sequences_already_in_tree_sweep")})
     R.set("terms_containing_constructor", kinds)
@@ -605,6 +647,8 @@ def run(tier):
         R.fail("vacuous:constructors-missing", {"missing": sorted(need - set(kinds))}, "some constructors never generated")
     if tot.get("nontrivial", 0) < tot.get("terms", 0) * 0.9 and not R.viol:
         R.fail("vacuous:few-accepted", {"nontrivial": tot.get("nontrivial", 0)}, "most cases did not reach the comparison")
+    if tot.get("styled_pragma_cases", 0) < 10000:
+        R.fail("vacuous:styled-pragmas", {"cases": tot.get("styled_pragma_cases", 0)}, "styled pragma texts not explored")
     if tot.get("ambiguous_renderings", 0) < 1000 or tot.get("pragma_cases", 0) < 100000:
         R.fail("vacuous:modes", {"ambiguous": tot.get("ambiguous_renderings", 0), "pragma": tot.get("pragma_cases", 0)}, "dangling-else / pragma parts empty")
     return R.finish(
